@@ -243,7 +243,11 @@ class BaseTemplate:
             )
         except RecursionError:
             raise
-        except BaseException:
+        except Exception:
+            # Exceptions outside of the ``Exception`` hierarchy (such as
+            # ``KeyboardInterrupt`` and ``SystemExit``) propagate as they
+            # are: mixing in ``RenderError`` would turn them into
+            # ``Exception`` subclasses.
             cls, exc, tb = sys.exc_info()
             try:
                 errors = rcontext.get('__error__')
